@@ -424,6 +424,18 @@ class MachineInterp(flow.Interp):
                         self.viol('C11.b', 'previousTransition() is not the transition that was applied (field %s)' % '.'.join(f), where, st,
                                   {'previous': self.describe(st, st.get(PREV + f)), 'accepted': self.describe(st, st.get(cur + f))})
                         break
+        if self.mode == 'load':
+            # loading into an active machine is observable as exactly one of: exit+enter (another state), reenter (the same state),
+            # initial enter -- never as nothing at all; and whatever the loader had queued is gone afterwards
+            # (only on paths that actually read a state index: for an automatically activated machine a buffer whose activity bit is 0
+            # cannot have been produced by save() -- A3 --, and load does nothing with it)
+            loaded = st.obs.get('read') is not None
+            if act_ok and loaded and st.obs.get('nev', 0) == 0:
+                self.viol('C12.d', 'load leaves the machine active without entering or re-entering the loaded state', where, st)
+            rd = st.get(REQUEST + ('destination',))
+            if act_ok and loaded and st.cconst(rd) != 255:      # (an inactive machine has no request by precondition A3)
+                self.viol('C12.d', 'load returns with a request of the loader still outstanding', where, st,
+                          {'request.destination': self.describe(st, rd)})
         if self.mode == 'replay' and self.entry_name == 'replayTransition':
             d = st.get(('A', 'replayTransition', 'destination'))
             rv = None
